@@ -21,13 +21,21 @@ pub fn compact(n: u128) -> Vec<u8> {
 }
 
 fn uint_values(bits: u32) -> Vec<u128> {
-    let max = if bits == 128 { u128::MAX } else { (1u128 << bits) - 1 };
+    let max = if bits == 128 {
+        u128::MAX
+    } else {
+        (1u128 << bits) - 1
+    };
     vec![0, 1, max]
 }
 
 /// values for a compact-encoded unsigned integer of the given width: one per length class that fits
 fn compact_values(bits: u32) -> Vec<u128> {
-    let max = if bits == 128 { u128::MAX } else { (1u128 << bits) - 1 };
+    let max = if bits == 128 {
+        u128::MAX
+    } else {
+        (1u128 << bits) - 1
+    };
     let mut v = vec![0u128, 63, 64, 16383, 16384, (1 << 30) - 1, 1 << 30, max];
     v.retain(|x| *x <= max);
     v.dedup();
@@ -75,11 +83,25 @@ impl<'a> Enumerator<'a> {
                     let (bits, signed) = prim_bits(p)?;
                     let n = (bits / 8) as usize;
                     if signed {
-                        let min: i128 = if bits == 128 { i128::MIN } else { -(1i128 << (bits - 1)) };
-                        let max: i128 = if bits == 128 { i128::MAX } else { (1i128 << (bits - 1)) - 1 };
-                        [min, -1, 0, max].iter().map(|v| v.to_le_bytes()[..n].to_vec()).collect()
+                        let min: i128 = if bits == 128 {
+                            i128::MIN
+                        } else {
+                            -(1i128 << (bits - 1))
+                        };
+                        let max: i128 = if bits == 128 {
+                            i128::MAX
+                        } else {
+                            (1i128 << (bits - 1)) - 1
+                        };
+                        [min, -1, 0, max]
+                            .iter()
+                            .map(|v| v.to_le_bytes()[..n].to_vec())
+                            .collect()
                     } else {
-                        uint_values(bits).iter().map(|v| v.to_le_bytes()[..n].to_vec()).collect()
+                        uint_values(bits)
+                            .iter()
+                            .map(|v| v.to_le_bytes()[..n].to_vec())
+                            .collect()
                     }
                 }
             },
@@ -93,8 +115,12 @@ impl<'a> Enumerator<'a> {
                             bits = prim_bits(p).filter(|(_, s)| !*s).map(|(b, _)| b);
                             break;
                         }
-                        Some(TypeDef::Composite(c)) if c.fields.len() == 1 => inner = c.fields[0].ty.id,
-                        Some(TypeDef::Tuple(t)) if t.fields.is_empty() => return Some(vec![vec![]]),
+                        Some(TypeDef::Composite(c)) if c.fields.len() == 1 => {
+                            inner = c.fields[0].ty.id
+                        }
+                        Some(TypeDef::Tuple(t)) if t.fields.is_empty() => {
+                            return Some(vec![vec![]])
+                        }
                         _ => return None,
                     }
                 }
@@ -130,7 +156,9 @@ impl<'a> Enumerator<'a> {
                     e.iter().take(3).map(|x| x.repeat(a.len as usize)).collect()
                 }
             }
-            TypeDef::Tuple(t) => self.product(&t.fields.iter().map(|f| f.id).collect::<Vec<_>>(), depth)?,
+            TypeDef::Tuple(t) => {
+                self.product(&t.fields.iter().map(|f| f.id).collect::<Vec<_>>(), depth)?
+            }
             TypeDef::Composite(c) => {
                 let ids: Vec<u32> = c.fields.iter().map(|f| f.ty.id).collect();
                 if depth == 0 && !ids.is_empty() {
@@ -144,7 +172,10 @@ impl<'a> Enumerator<'a> {
                 }
                 if ty.path.segments.len() == 1 && name == "Duration" {
                     // nanoseconds must be below 10^9
-                    v.retain(|e| e.len() == 12 && u32::from_le_bytes([e[8], e[9], e[10], e[11]]) < 1_000_000_000);
+                    v.retain(|e| {
+                        e.len() == 12
+                            && u32::from_le_bytes([e[8], e[9], e[10], e[11]]) < 1_000_000_000
+                    });
                 }
                 v
             }
@@ -177,7 +208,10 @@ impl<'a> Enumerator<'a> {
     pub fn product(&self, ids: &[u32], depth: usize) -> Option<Vec<Vec<u8>>> {
         let mut per: Vec<Vec<Vec<u8>>> = vec![];
         for id in ids {
-            let e = self.encodings(*id, depth.saturating_sub(if self.is_def(*id) { 1 } else { 0 }))?;
+            let e = self.encodings(
+                *id,
+                depth.saturating_sub(if self.is_def(*id) { 1 } else { 0 }),
+            )?;
             if e.is_empty() {
                 return Some(vec![]); // no terminating value within the depth bound
             }
